@@ -257,12 +257,15 @@ SPECS = {
                         "two single-thread builds must agree first (otherwise C08's matter, case inconclusive)"],
     },
     "C10": {
-        "level_text": 'Generated (workers 1..4, tasks 0..12, producer protocol, schedule) cases: WorkerPool runs under the deterministic scheduler; oracle: every task counter == 1, no task entered while running, no state in which all threads are blocked (this turns "wait_workers returns in every schedule" into a per-schedule safety check).',
+        "level_text": 'Generated (workers 1..4, tasks 0..12, producer protocol, schedule) cases: WorkerPool runs under the deterministic scheduler; oracle: every task counter == 1, no task entered while running, no state in which all threads are blocked (this turns "wait_workers returns in every schedule" into a per-schedule safety check). A second stage enumerates, for each of 36 small configurations (1-3 workers, 0-3 tasks, 3 producer protocols), EVERY schedule with at most 2 pre-emptions of a runnable thread (1 with three workers; 3 / 2 in the thorough tier) by depth-first search over the recorded choice points, capped at 40 000 (2 000 000) schedules per configuration; labels enum_complete / enum_capped say how many configurations were exhausted.',
         "level_note": SCHED_NOTE, "technique": "schedule-generating property-based testing: deterministic scheduler (pthread interposition) + rapidcheck; deadlock = no enabled thread", "family": "sched",
         "engine": "rapidcheck bytes -> (pool scenario, schedule); sched/vsched.cpp owns the interleaving; each case in a forked child",
-        "stages": sched_stages("C10", 6000, 260, floors={"threads_ge3": 2000, "preemptions_ge3": 2000, "notify_without_waiter": 500}, nontrivial_floor=2000, thorough_mult=10),
+        "stages": (lambda tier: sched_stages("C10", 6000, 260, floors={"threads_ge3": 2000, "preemptions_ge3": 2000, "notify_without_waiter": 500}, nontrivial_floor=2000, thorough_mult=10)(tier)
+                   + [{"name": "enum", "binary": "sched_rc", "plan": [(s, 1, 10) for s in range(36)], "param": "enum:3:2000000" if tier == "thorough" else "enum:2:40000",
+                       "label_floors": {"enum_complete": 12}, "nontrivial_floor": 20}]),
         "rule": "case = (workers, tasks, protocol in {stop-after-add, stop-after-completion-cv, last-task-stops}, schedule bytes, strategy "
-                "random|PCT); non-trivial = >=1 task and >=1 pre-emption of a runnable thread; distinct = hash of the case bytes",
+                "random|PCT); non-trivial = >=1 task and >=1 pre-emption of a runnable thread; distinct = hash of the case bytes; enumeration stage: "
+                "case = configuration, counter enum_schedules = schedules executed (each under the same oracle)",
         "assumptions": ["tasks are never added after stop (the statement covers tasks handed over before the stop)"],
     },
     "C11": {
